@@ -41,7 +41,7 @@ LEVEL_NOTE = ("Trusted: harness ledger for the pre-trade NLV; tolerances 1e-9 re
 def frictionless(ctx):
     rng = ctx.rng
     pool = [ETF("A"), gen.SpotMult("L10", 10.0), ES(2019, 6), ZN(2019, 9), ETF("C"), NK(2019, 12),
-            gen.UserFuture("F1", 5, 0.3)]
+            gen.UserFuture("F1", 5, 0.3), gen.UserSpot("U3", 3.0), gen.AssetFuture("AF", 20, 0.2)]
     rng.shuffle(pool)
     cs = pool[: rng.randint(1, 4)]
     fees = BrokerFees()
